@@ -216,23 +216,27 @@ class BlockNode(Node):
                 template_name=stack_item.source_name,
             )
 
+        block_drop = BlockDrop(
+            token=self.token,
+            context=context,
+            buffer=buffer,
+            name=self.name,
+            parent=stack_item.parent,
+        )
+
         ctx = context.copy(
             token=self.token,
-            namespace={
-                "block": BlockDrop(
-                    token=self.token,
-                    context=context,
-                    buffer=buffer,
-                    name=self.name,
-                    parent=stack_item.parent,
-                )
-            },
+            namespace={"block": block_drop},
             carry_loop_iterations=True,
             block_scope=True,
             # A block inherits its scope, and with it the tags that are disabled
             # there (`include` inside a rendered template, for example).
             disabled_tags=context.disabled_tags,
         )
+
+        # `block.super` is part of this block. It renders in the block's context,
+        # where the block's loops and variables count towards resource limits.
+        block_drop.context = ctx
 
         return stack_item.block.block.render(ctx, buffer)
 
@@ -273,23 +277,27 @@ class BlockNode(Node):
                 template_name=stack_item.source_name,
             )
 
+        block_drop = BlockDrop(
+            token=self.token,
+            context=context,
+            buffer=buffer,
+            name=self.name,
+            parent=stack_item.parent,
+        )
+
         ctx = context.copy(
             token=self.token,
-            namespace={
-                "block": BlockDrop(
-                    token=self.token,
-                    context=context,
-                    buffer=buffer,
-                    name=self.name,
-                    parent=stack_item.parent,
-                )
-            },
+            namespace={"block": block_drop},
             carry_loop_iterations=True,
             block_scope=True,
             # A block inherits its scope, and with it the tags that are disabled
             # there (`include` inside a rendered template, for example).
             disabled_tags=context.disabled_tags,
         )
+
+        # `block.super` is part of this block. It renders in the block's context,
+        # where the block's loops and variables count towards resource limits.
+        block_drop.context = ctx
         return await stack_item.block.block.render_async(ctx, buffer)
 
     def children(
